@@ -154,6 +154,24 @@ func genHist(r *Rng, tier string, n int, emit func(string)) {
 		var ops []string
 		hid := 0
 		k := 6 + cr.Intn(50)
+		if cr.Chance(7) {
+			// a wide node: more than 50 static children with distinct first bytes (the binary-search regime of getEdge /
+			// updateEdge) next to a parameter and two catch-all routes, all registered in a random order, then the usual
+			// history of deletions and re-registrations
+			const alpha = "0123456789abcdefghijklmnopqrstuvwxyzABCDEFGHIJKLMNOPQRSTUVWXYZ-_"
+			base := Pick(cr, []string{"/", "/w/", "/{v}/"})
+			pool = nil
+			for _, i := range cr.Perm(len(alpha))[:52+cr.Intn(len(alpha)-52+1)] {
+				pool = append(pool, base+string(alpha[i])+Pick(cr, []string{"", "x", "/y"}))
+			}
+			pool = append(pool, base+"*{any}", base+"*{any}/edit", base+"{p}", base+"{p}/z")
+			methods = methods[:1]
+			for _, i := range cr.Perm(len(pool)) {
+				hid++
+				ops = append(ops, fmt.Sprintf("H,%s,%s,%d,%d", methods[0], hx(pool[i]), 0, hid))
+			}
+			k = 4 + cr.Intn(12)
+		}
 		for i := 0; i < k; i++ {
 			m := Pick(cr, methods)
 			p := Pick(cr, pool)
